@@ -1,7 +1,8 @@
 (* Properties/C07.v — Non-answers are never turned into answers. *)
 From Coq Require Import ZArith Lia.
 From RsdnsModel Require Import Base GenHeader Cursor Names Labels Header Tracker RData Reader RecordSet.
-From RsdnsModel.Proofs Require Import Gates.
+From RsdnsModel.Spec Require Import LinearPass.
+From RsdnsModel.Proofs Require Import Gates ReaderRefine FromMsgRefine.
 Open Scope N_scope.
 
 (* For ALL byte strings (no well-formedness assumed) and all 17 record-data types: a returned
@@ -44,3 +45,17 @@ Proof.
   rewrite forallb_forall in H. specialize (H ext (rangeN_complete 256 ext He)).
   apply N.eqb_eq. exact H.
 Qed.
+
+(* The response-code gate with the OPT record identified: on a message the linear pass parses
+   completely (one question, a response, not truncated) the code checked is the header nibble
+   extended by the extension octet of the FIRST record of type OPT behind the answer section
+   ([the_opt]: authority and additional sections, any position; none: the nibble alone).  If it is
+   not 0 the result is BadResponseCode with exactly that 12-bit value; a returned set implies 0. *)
+Theorem C07_rcode_gate : forall msg nq an ns ar qs rs e1 e2,
+  parsed msg nq an ns ar qs rs e1 e2 -> lenN qs = nq -> lenN rs = an + ns + ar ->
+  forall h, read_header msg (c_new msg) = (c_set_pos (c_new msg) 12, Ok h) ->
+  h_qd h = nq /\ h_an h = an /\ h_ns h = ns /\ h_ar h = ar ->
+  forall ty q, nq = 1 -> getN qs 0 = Some q -> flag_qr (h_flags h) = true -> flag_tc (h_flags h) = false ->
+  (the_rcode an ns ar rs h <> 0 -> from_msg msg ty = Err (BadResponseCode (the_rcode an ns ar rs h))) /\
+  (forall s, from_msg msg ty = Ok s -> the_rcode an ns ar rs h = 0).
+Proof. exact from_msg_rcode_gate. Qed.
